@@ -57,15 +57,18 @@ func plans(id, tier string) (Plan, bool) {
 			// the same scope over a vocabulary of 2- and 3-byte letters, and with the vocabulary's token
 			// ids placed around the UTF-16 surrogate range and U+FFFD (ids are handed to go-diff as runes)
 			{Pkg: pkgV2, Harness: "c02_small", Params: fmt.Sprintf("vocab=accented;maxlen=%d", pick(5, 8)), Shards: pick(8, 16)},
-			{Pkg: pkgV2, Harness: "c02_small", Params: fmt.Sprintf("dictoffset=55294;corpora=%d;maxlen=%d", pick(6, 16), pick(5, 7)), Shards: pick(2, 8)},
-			{Pkg: pkgV2, Harness: "c02_small", Params: fmt.Sprintf("dictoffset=57341;corpora=%d;maxlen=%d", pick(6, 16), pick(5, 7)), Shards: pick(2, 8)},
-			{Pkg: pkgV2, Harness: "c02_small", Params: fmt.Sprintf("dictoffset=65531;corpora=%d;maxlen=%d", pick(6, 16), pick(5, 7)), Shards: pick(2, 8)},
+			{Pkg: pkgV2, Harness: "c02_small", Params: fmt.Sprintf("dictoffset=55294;corpora=%d;maxlen=%d", pick(16, 16), pick(6, 8)), Shards: pick(4, 16)},
+			{Pkg: pkgV2, Harness: "c02_small", Params: fmt.Sprintf("dictoffset=57341;corpora=%d;maxlen=%d", pick(16, 16), pick(6, 8)), Shards: pick(4, 16)},
+			{Pkg: pkgV2, Harness: "c02_small", Params: fmt.Sprintf("dictoffset=65531;corpora=%d;maxlen=%d", pick(16, 16), pick(6, 8)), Shards: pick(4, 16)},
 			{Pkg: pkgV2, Harness: "c02_corpus", Params: "t=0.8", Shards: 16},
+			{Pkg: pkgV2, Harness: "c02_corpus", Params: "t=0.8;families=window;split=4", Shards: 16},
 		}}, true
 	case "C03":
 		return Plan{Level: "exploration", Jobs: []Job{
 			{Pkg: pkgV2, Harness: "c03_small", Shards: pick(6, 16)},
+			{Pkg: pkgV2, Harness: "c03_small", Params: fmt.Sprintf("vocab=accented;maxlen=%d", pick(5, 7)), Shards: pick(4, 16)},
 			{Pkg: pkgV2, Harness: "c03_corpus", Params: "t=0.8", Shards: pick(10, 16)},
+			{Pkg: pkgV2, Harness: "c03_corpus", Params: "t=0.8;families=window;split=4", Shards: 16},
 			{Pkg: pkgV2, Harness: "c03_corpus", Params: "t=0.5;families=" + map[bool]string{false: "exact", true: "exact,edit1,truncate,scenario;ndocs=30"}[th], Shards: pick(6, 16)},
 			{Pkg: pkgV2, Harness: "c03_bytes", Shards: pick(2, 8)},
 			{Pkg: pkgV2, Harness: "c03_names", Shards: 1},
@@ -107,6 +110,7 @@ func plans(id, tier string) (Plan, bool) {
 		}
 		return Plan{Level: "exploration", Jobs: []Job{
 			{Pkg: pkgV2, Harness: "c07_small", Shards: pick(6, 16)},
+			{Pkg: pkgV2, Harness: "c07_small", Params: fmt.Sprintf("vocab=accented;maxlen=%d", pick(6, 8)), Shards: pick(4, 16)},
 			{Pkg: pkgV2, Harness: "c07_corpus", Params: "t=0.8;families=exact,edit1,periodic,truncate,concat,scenario" + map[bool]string{false: ",scatter,edit2", true: ""}[th], Shards: 16},
 			{Pkg: pkgV2, Harness: "c07_corpus", Params: "t=0.8;docs=c07findings;families=scatter,periodic", Shards: 7},
 		}}, true
@@ -162,6 +166,7 @@ func plans(id, tier string) (Plan, bool) {
 		return Plan{Level: "exploration", Jobs: []Job{
 			{Pkg: pkgV2, Harness: "c11_tokens", Shards: pick(8, 16)},
 			{Pkg: pkgV2, Harness: "c11_match", Params: "families=exact,scenario,recase" + map[bool]string{false: "", true: ",concat,edit1"}[th], Shards: 16},
+			{Pkg: pkgV2, Harness: "c11_match", Params: "families=window;split=4", Shards: 16},
 		}}, true
 	case "C12":
 		return Plan{Level: "exploration", Jobs: []Job{
